@@ -104,6 +104,9 @@ type OblResult struct {
 	File   string
 	Status string // proved failed cover-ok cover-failed unproved-skip
 	Replayed bool
+	Part   *FuncResult
+	ReplayNote string
+	ReplayFile string
 }
 
 func main() {
@@ -231,7 +234,7 @@ func verifyAll(L *Loaded, sel func(c *Contract) bool, workDir string, timeout ti
 	}
 	results := make([]*OblResult, len(jobs))
 	classify := func(j job, r *SolveResult) *OblResult {
-		or := &OblResult{O: j.o, C: j.fr.Contract, R: r, File: j.file}
+		or := &OblResult{O: j.o, C: j.fr.Contract, R: r, File: j.file, Part: j.fr}
 		switch {
 		case j.o.Cover && r.Status == "sat":
 			or.Status = "cover-ok"
@@ -247,6 +250,9 @@ func verifyAll(L *Loaded, sel func(c *Contract) bool, workDir string, timeout ti
 		return or
 	}
 	undecided := func(or *OblResult) bool {
+		if or.O.Unproved != "" {
+			return false // attempted once, never claimed
+		}
 		return or.Status == "cover-unknown" || (or.Status == "failed" && or.R.Status != "sat")
 	}
 	// Scheduling: a first pass with a short limit and many obligations in flight settles the easy
@@ -276,7 +282,7 @@ func verifyAll(L *Loaded, sel func(c *Contract) bool, workDir string, timeout ti
 	if timeout < short {
 		short = timeout
 	}
-	runPass(idx, 6, short)
+	runPass(idx, 8, short)
 	var rest []int
 	for _, i := range idx {
 		if undecided(results[i]) {
@@ -284,7 +290,7 @@ func verifyAll(L *Loaded, sel func(c *Contract) bool, workDir string, timeout ti
 		}
 	}
 	if len(rest) > 0 && timeout > short {
-		runPass(rest, 2, timeout)
+		runPass(rest, 3, timeout)
 		var last []int
 		for _, i := range rest {
 			if undecided(results[i]) {
